@@ -179,6 +179,19 @@ class Engine:
             return None
         return None
 
+    def truth_of_object(self, ctx, v):
+        """bool(obj): classes with __bool__/__len__ expose it through the model field __bool__"""
+        hit = C.class_field(v.ty.args[0].name, "__bool__")
+        if hit is None:
+            return True
+        owner, tystr = hit
+        arr = ctx.heap.get(f"{owner}.__bool__")
+        if arr is None:
+            arr = z3.Const(f"H0_{owner}.__bool__", z3.ArraySort(z3.IntSort(), z3.BoolSort()))
+            ctx.heap[f"{owner}.__bool__"] = arr
+            ctx.heap0[f"{owner}.__bool__"] = (arr, BOOL)
+        return z3.Select(arr, v.t)
+
     def record_call(self, caller, callee, inline=False):
         self.calls.setdefault(caller.cid, set()).add((callee.cid, "inline" if inline else ("trusted" if callee.trusted else "contract")))
 
@@ -324,6 +337,10 @@ class Engine:
             for st in node.body:
                 if isinstance(st, ast.Assign) and isinstance(st.targets[0], ast.Name) and st.targets[0].id == attr:
                     return Opaque(f"{cref.name}.{attr}")
+                if isinstance(st, ast.FunctionDef) and st.name == attr:
+                    top = getattr(interp.frames[0], "contract", None)
+                    if top is not None and top.unwind == "havoc":
+                        return Opaque(f"{cref.name}.{attr}")      # frame-only verification: an unmodelled callable
             for b in node.bases:
                 if isinstance(b, ast.Name) and b.id != cref.name and self.index.find_class(b.id):
                     try:
@@ -578,7 +595,8 @@ class Engine:
             n = consts[lem["induct"]]
             ctx.assume(z3.ForAll(list(consts.values()), z3.Implies(n >= 0, f)))
 
-    def verify(self, ct, max_paths=400):
+    def verify(self, ct, max_paths=None):
+        max_paths = max_paths or (3000 if ct.unwind == "havoc" else 400)
         oracle = Oracle()
         obligations = []
         obligations.extend(self.prove_lemmas(ct))
